@@ -1,5 +1,6 @@
 use crate::constants::{
-    LmsLeafIdentifier, MAX_HASH_SIZE, MAX_LMS_SIGNATURE_LENGTH, MAX_TREE_HEIGHT,
+    lms_signature_length, LmsLeafIdentifier, MAX_HASH_SIZE, MAX_LMS_SIGNATURE_LENGTH,
+    MAX_TREE_HEIGHT,
 };
 use crate::hasher::HashChain;
 use crate::hss::aux::MutableExpandedAuxData;
@@ -164,29 +165,36 @@ impl<'a, H: HashChain> InMemoryLmsSignature<'a, H> {
         // Parsing like 5.4.2 Algorithm 6a
         let mut index = 0;
 
+        if data.len() < 8 {
+            return None;
+        }
         let lms_leaf_identifier =
             u32::from_be_bytes(read_and_advance(data, 4, &mut index).try_into().unwrap());
 
         // LMOTS Signature consists of LMOTS parameter, signature randomizer & signature data
         let lmots_parameter = LmotsAlgorithm::get_from_type::<H>(u32::from_be_bytes(
             read(data, 4, &index).try_into().unwrap(),
-        ))
-        .unwrap();
+        ))?;
+        let lmots_signature_length =
+            (4 + H::OUTPUT_SIZE * (1 + lmots_parameter.get_num_winternitz_chains())) as usize;
+        if data.len() < index + lmots_signature_length + 4 {
+            return None;
+        }
         let lmots_signature = lm_ots::signing::InMemoryLmotsSignature::new(read_and_advance(
             data,
-            (4 + H::OUTPUT_SIZE * (1 + lmots_parameter.get_num_winternitz_chains())) as usize,
+            lmots_signature_length,
             &mut index,
-        ))
-        .unwrap();
+        ))?;
 
         let _type = u32::from_be_bytes(read_and_advance(data, 4, &mut index).try_into().unwrap());
 
-        let lms_parameter = LmsAlgorithm::get_from_type(_type).unwrap();
-        let authentication_path = read_and_advance(
-            data,
-            (H::OUTPUT_SIZE * lms_parameter.get_tree_height() as u16) as usize,
-            &mut index,
-        );
+        let lms_parameter = LmsAlgorithm::get_from_type(_type)?;
+        let authentication_path_length =
+            (H::OUTPUT_SIZE * lms_parameter.get_tree_height() as u16) as usize;
+        if data.len() < index + authentication_path_length {
+            return None;
+        }
+        let authentication_path = read_and_advance(data, authentication_path_length, &mut index);
 
         if lms_leaf_identifier >= lms_parameter.number_of_lm_ots_keys() as u32 {
             return None;
@@ -198,6 +206,17 @@ impl<'a, H: HashChain> InMemoryLmsSignature<'a, H> {
             lmots_signature,
             authentication_path,
         })
+    }
+
+    /// Length of the binary representation this signature was parsed from.
+    pub fn len(&self) -> usize {
+        lms_signature_length(
+            self.lms_parameter.get_hash_function_output_size(),
+            self.lmots_signature
+                .lmots_parameter
+                .get_num_winternitz_chains() as usize,
+            self.lms_parameter.get_tree_height() as usize,
+        )
     }
 
     pub fn get_path(&self, index: usize) -> &[u8] {
